@@ -154,20 +154,32 @@ func c06Name(r gedcom.DateRangeComparison) string {
 }
 
 func c06Check(c *fw.Ctx, R, A c06Range, viaString bool) {
+	mode := 0
+	if viaString {
+		mode = 1
+	}
+	c06CheckMode(c, R, A, mode)
+}
+
+// c06CheckMode: mode 0 both operands built from Date values, 1 both read from
+// text, 2 the receiver read from text and the argument built, 3 the reverse.
+func c06CheckMode(c *fw.Ctx, R, A c06Range, mode int) {
 	a, b := R.interval()
 	cc, d := A.interval()
 	if a > b || cc > d {
 		return
 	}
-	var dr, da gedcom.DateRange
-	if viaString {
-		dr, da = gedcom.NewDateRangeWithString(R.String()), gedcom.NewDateRangeWithString(A.String())
-		if !dr.IsValid() || !da.IsValid() {
-			c.Violation("valid-range-string-rejected", fmt.Sprintf("%q or %q reported invalid", R.String(), A.String()), []string{R.String(), A.String()})
-			return
-		}
-	} else {
-		dr, da = R.build(), A.build()
+	viaString := mode != 0
+	dr, da := R.build(), A.build()
+	if mode == 1 || mode == 2 {
+		dr = gedcom.NewDateRangeWithString(R.String())
+	}
+	if mode == 1 || mode == 3 {
+		da = gedcom.NewDateRangeWithString(A.String())
+	}
+	if !dr.IsValid() || !da.IsValid() {
+		c.Violation("valid-range-string-rejected", fmt.Sprintf("%q or %q reported invalid", R.String(), A.String()), []string{R.String(), A.String()})
+		return
 	}
 	res := dr.Compare(da)
 	rev := da.Compare(dr)
@@ -321,6 +333,13 @@ func c06Run(c *fw.Ctx, i int) {
 				c06Check(c, R, A, true)
 			}
 		}
+		// one operand read from text, the other built (the same text against
+		// many different built ranges, and the other way round)
+		for j, A := range win {
+			if (i+j)%2 == 0 {
+				c06CheckMode(c, R, A, 2+(j/2)%2)
+			}
+		}
 		// and with constraint words on one or both sides
 		for j, A := range win {
 			if (i+j)%3 == 1 || R.sameDays(A) {
@@ -340,6 +359,9 @@ func c06Run(c *fw.Ctx, i int) {
 			c06Check(c, R, A, (i+j)%2 == 0)
 			if (i+j)%3 == 0 || R.sameDays(A) {
 				c06Check(c, R.with(i+j/4), A.with(j), j%2 == 0)
+			}
+			if (i+j)%3 == 1 {
+				c06CheckMode(c, R, A, 2+(j/3)%2)
 			}
 		}
 		if c.WantSample("granularity") {
@@ -415,7 +437,7 @@ func c06Run(c *fw.Ctx, i int) {
 		if r.Bool() {
 			R, A = R.with(r.Intn(4)), A.with(r.Intn(4))
 		}
-		c06Check(c, R, A, k%4 == 0)
+		c06CheckMode(c, R, A, []int{1, 0, 2, 0, 1, 3, 0, 0}[k%8])
 		if k == 0 && c.WantSample("random") {
 			c.Sample("random", map[string]string{"receiver": R.String(), "argument": A.String(), "result": c06Name(R.build().Compare(A.build()))})
 		}
